@@ -187,7 +187,11 @@ func runSkipStruct(o decOpts, in []byte) outcome {
 		full := append(exact(unknownFieldPrefix), in...)
 		d := codec.NewDecoderBytes(exact(full), o.handle())
 		err := d.Decode(&v)
-		return outcome{err: err, n: d.NumBytesRead() - len(unknownFieldPrefix)}
+		n := d.NumBytesRead() - len(unknownFieldPrefix)
+		if n < 0 {
+			n = 0 // failed before the value was reached (MaxDepth = 1)
+		}
+		return outcome{err: err, n: n}
 	})
 }
 
